@@ -14,7 +14,7 @@ ASSUMPTIONS = [
     "attribute deletion through a link is not part of the statement and is not generated",
 ]
 GATES = ["mon.C20.shadow", "mon.C20.structure", "C20.link_to_link", "C20.link_other_tree", "C20.ctor_kwargs", "C20.ctor_kwargs_on_link_target", "C20.write_via_link", "C20.write_via_target",
-         "C20.missing_attr_raises", "C20.struct_on_link", "C20.struct_on_target", "C20.veto", "C20.falsy_target", "C20.property_target", "C20.equal_but_distinct_value", "C20.target_reassigned", "C20.refused_by_target", "C20.target_not_in_instance_dict"]
+         "C20.missing_attr_raises", "C20.struct_on_link", "C20.struct_on_target", "C20.veto", "C20.falsy_target", "C20.property_target", "C20.equal_but_distinct_value", "C20.target_reassigned", "C20.refused_by_target", "C20.target_not_in_instance_dict", "C20.self_referential_value"]
 
 NAMES = ["foo", "bar", "baz", "x1", "value_", "lng", "k9", "_p", "__q", "name", "été", "data", "t", "get", "tar", "a",
          # names that merely start with / contain one of the three structural names
@@ -317,7 +317,7 @@ def run(ctx):
         if got != want or [c.parent is t for c in kids] != [True, True]:
             ctx.violation("C20/structure/link-shows-targets-children", "structural-model", {"directed": "link chain of depth %d to a LightNodeMixin target with two children" % depth}, expected=want, observed=got)
 
-    for depth in (0, 1, 2, 3):
+    for depth in (0, 1, 2, 3, 12, 40):
         t = F.HNode("base")
         chain = [t]
         for d in range(depth):
@@ -329,6 +329,19 @@ def run(ctx):
         bad = [i for i, c in enumerate(chain[1:] + [link]) if "baz" in vars(c)]
         if bad or getattr(t, "baz", None) != 18:
             ctx.violation("C20/ctor-kwargs/depth%d" % min(depth, 1), "shadow-store", case, expected="baz stored on the final target only", observed={"links_with_own_attrs": bad, "target_has": getattr(t, "baz", None)})
+            continue
+        # a value that refers back to the link (stored through it), then a read of a name the target lacks
+        link.alias = link
+        ctx.count("C20.self_referential_value")
+        try:
+            link.no_such_attribute_anywhere  # noqa: B018
+            got = "returned"
+        except AttributeError:
+            got = "AttributeError"
+        except BaseException as e:  # noqa: B902
+            got = type(e).__name__
+        if got != "AttributeError" or getattr(t, "alias", None) is not link:
+            ctx.violation("C20/forwarding/missing-attribute-with-self-reference", "shadow-store", case, expected="AttributeError; alias stored on the final target", observed=got)
             continue
         if depth:
             chain[1].baz = 9
